@@ -54,6 +54,12 @@ func (env *Env) GetEvalEnv() *EvalEnv {
 	}
 }
 
+// RefreshEvalEnv makes e see the functions added to env after e was created.
+func (env *Env) RefreshEvalEnv(e *EvalEnv) {
+	e.nativeFuncs = env.nativeFuncs
+	e.userFuncs = env.userFuncs
+}
+
 // AddNativeMethod binds `$typeName.$methodName` symbol with f.
 // A typeName should be fully qualified, like `github.com/user/pkgname.TypeName`.
 // It method is defined only on pointer type, the typeName should start with `*`.
